@@ -180,7 +180,7 @@ def generate(mods, repo):
                         if isinstance(st, ast.Expr) and isinstance(st.value, ast.Call):
                             cn = "%s.%s.%s:%s" % (omod, owner.__name__, n, ast.unparse(st.value))
                             customs.append(cn)
-                            rules.append(('.custom "%s"' % cn, {"k": "custom", "name": cn, "why": "call outside the idiom"}))
+                            rules.append(('.custom %s /- %s -/' % (T.lstr(cn), cn), {"k": "custom", "name": cn, "why": "call outside the idiom"}))
                         else:
                             raise
                 meths.append('("%s", [%s])' % (n, ",\n      ".join(t for t, _ in rules)))
@@ -188,7 +188,7 @@ def generate(mods, repo):
             except (NotIdiom, Exception) as e:   # noqa: conservative – anything unexpected is `custom`
                 cn = "%s.%s.%s" % (omod, owner.__name__, n)
                 customs.append(cn)
-                meths.append('("%s", [.custom "%s"])' % (n, cn))
+                meths.append('("%s", [.custom %s /- %s -/])' % (n, T.lstr(cn), cn))
                 jm.append({"method": n, "defined_in": owner.__name__, "rules": [{"k": "custom", "name": cn, "why": str(e)}]})
         dn = "rules_%s_%s" % (mname, cname)
         out.append("def %s : MethodRules :=\n  [%s]\n" % (dn, ",\n   ".join(meths)))
@@ -196,6 +196,6 @@ def generate(mods, repo):
         allnames.append(("%s.%s" % (mname, cname), dn))
     out.append("def allClasses : List (String × MethodRules) :=\n  [%s]\n" % ",\n   ".join('("%s", %s)' % p for p in allnames))
     cu = sorted(set(customs))
-    out.append("def customNames : List String :=\n  [%s]\n" % ", ".join('"%s"' % c for c in cu))
+    out.append("def customNames : List Str :=\n  [%s]\n" % ",\n   ".join("%s /- %s -/" % (T.lstr(c), c) for c in cu))
     out.append("end PM.Gen")
     return [("Validators.lean", "\n".join(out) + "\n", {"classes": js, "customs": cu})]
